@@ -182,7 +182,10 @@ class Evaluator:
             if isinstance(v.obj, (bool, int, str, tuple, type(None))):
                 return z3.BoolVal(bool(v.obj))
             return z3.BoolVal(True)
-        if isinstance(v, (VClosure, VBound, VObj, VOpaque)):
+        if isinstance(v, VOpaque):
+            f = z3.Function("truthy", z3.IntSort(), z3.BoolSort())
+            return f(v.t)
+        if isinstance(v, (VClosure, VBound, VObj)):
             return z3.BoolVal(True)
         raise OutOfSubset("truth", type(v).__name__)
 
@@ -550,6 +553,9 @@ class Evaluator:
             return VSeq(z3.Concat(a.t, b.t), a.kind)
         if isinstance(a, VTuple) and isinstance(b, VTuple) and isinstance(op, ast.Add):
             return VTuple(a.items + b.items)
+        if isinstance(a, VOpaque) and isinstance(b, VOpaque):
+            f = z3.Function("op_" + type(op).__name__, z3.IntSort(), z3.IntSort(), z3.IntSort())
+            return VOpaque(f(a.t, b.t))
         if isinstance(a, VRef) and isinstance(b, VRef) and isinstance(op, ast.Add):
             return self.heap.list_concat(a, b)
         self.oos(node, f"binop {type(op).__name__} on {type(a).__name__},{type(b).__name__}")
@@ -619,6 +625,8 @@ class Evaluator:
         if isinstance(a, VPy) and isinstance(b, VPy):
             return z3.BoolVal(a.obj is b.obj or (isinstance(a.obj, tuple) and a.obj == b.obj))
         if isinstance(a, VBool) and isinstance(b, VBool):
+            return a.t == b.t
+        if isinstance(a, VOpaque) and isinstance(b, VOpaque):
             return a.t == b.t
         if type(a) is not type(b):
             return z3.BoolVal(False)
@@ -742,6 +750,9 @@ class Evaluator:
             return self.E.wrap_kind(base.kind, base.t[pos])
         if isinstance(base, VRef):
             return self.heap.subscript(base, idx, node)
+        if isinstance(base, VOpaque) and isinstance(idx, VInt):
+            f = z3.Function("item_of", z3.IntSort(), z3.IntSort(), z3.IntSort())
+            return VOpaque(f(base.t, idx.t))
         if isinstance(base, VStrJoin):
             self.oos(node, "index into joined list")
         self.oos(node, f"subscript of {type(base).__name__}")
@@ -762,6 +773,11 @@ class Evaluator:
             if attr in base.fields:
                 return base.fields[attr]
             return VBound(base, attr)
+        if isinstance(base, VOpaque):
+            if attr in self.ctx.contract.opaque_methods:
+                return VBound(base, attr)
+            f = z3.Function("attr_" + attr, z3.IntSort(), z3.IntSort())
+            return VOpaque(f(base.t), attr)
         if isinstance(base, VPy) and isinstance(base.obj, tuple):
             tag = base.obj[0]
             if tag == "extmod":
@@ -844,8 +860,15 @@ class Evaluator:
                 self.path.assume(sub.truth(sub.ev(ast.parse(cl, mode="eval").body, cenv)), check=False)
             self.path.assume(z3.BoolVal(True))
             raise self.E.Raised(out, node)
-        if getattr(ext, "fresh", False) and ext.returns is not None and ext.returns.name in ("Ref", "ListRef"):
-            res = self.heap.fresh_object(ext.returns.args[0] or ("list" if ext.returns.name == "ListRef" else "OtherExpression"))
+        def fresh_alloc(t):
+            if t.name == "Tup":
+                return VTuple([fresh_alloc(a) for a in t.args])
+            if t.name in ("Ref", "ListRef"):
+                return self.heap.fresh_object(t.args[0] or ("list" if t.name == "ListRef" else "OtherExpression"))
+            return self.fresh_value(t, f"ext:{key}")
+
+        if getattr(ext, "fresh", False) and ext.returns is not None and ext.returns.name in ("Ref", "ListRef", "Tup"):
+            res = fresh_alloc(ext.returns)
         else:
             res = self.fresh_value(ext.returns, f"ext:{key}@L{getattr(node, 'lineno', 0)}") if ext.returns is not None else VNone()
         cenv.vars["result"] = res
@@ -936,6 +959,8 @@ class Evaluator:
             names.append(c.id if isinstance(c, ast.Name) else ast.unparse(c))
         if isinstance(v, VRef):
             return VBool(self.heap.isinstance(v, names))
+        if isinstance(v, VOpaque):
+            return VBool(z3.BoolVal(False))  # an opaque value stands for "anything else"
         shape = {
             VStr: {"str"} if not getattr(v, "is_bytes", False) else {"bytes"},
             VInt: {"int"},
@@ -1168,6 +1193,16 @@ class Evaluator:
         if name == "set":
             if not args:
                 return VPy(("idset", ()))
+        if name in ("getattr", "hasattr") and isinstance(args[0], VObj):
+            key = args[1]
+            if isinstance(key, VStr) and z3.is_string_value(key.t):
+                k = key.t.as_string()
+                if name == "hasattr":
+                    return VBool(z3.BoolVal(k in args[0].fields))
+                if k in args[0].fields:
+                    return args[0].fields[k]
+                if len(args) > 2:
+                    return args[2]
         if name in ("getattr", "hasattr"):
             return self.heap.call_getattr(name, args, node)
         if name == "repr":
@@ -1205,6 +1240,13 @@ class Evaluator:
                 return recv
         if isinstance(recv, (VSeq, VStrJoin)):
             return self.list_method(recv, name, args, node)
+        if isinstance(recv, VOpaque) and name in self.ctx.contract.opaque_methods:
+            rt = self.ctx.contract.opaque_methods[name]
+            sorts = {"Bool": z3.BoolSort(), "Str": z3.StringSort(), "Int": z3.IntSort(), "Opaque": z3.IntSort()}
+            argt = [recv.t] + [self.E.unwrap(a) for a in args if isinstance(a, (VStr, VInt, VOpaque))]
+            f = z3.Function("meth_" + name, *[t.sort() for t in argt], sorts[rt.name])
+            r = f(*argt)
+            return {"Bool": VBool, "Str": VStr, "Int": VInt, "Opaque": VOpaque}[rt.name](r)
         if isinstance(recv, VRef):
             return self.heap.call_method(recv, name, args, kwargs, node, env)
         if isinstance(recv, VPy) and isinstance(recv.obj, tuple) and recv.obj and recv.obj[0] == "idset":
@@ -1281,6 +1323,8 @@ class Evaluator:
             a = args[0]
             if isinstance(a, VStrJoin) and z3.is_string_value(t) and t.as_string() == "":
                 return VStr(a.joined)
+            if isinstance(a, VPy) and a.obj == ("generator",):
+                return VStr(self.path.fresh("joined", z3.StringSort()))
             if isinstance(a, VPy) and a.obj == ("emptylist",):
                 return VStr(S(""))
             if isinstance(a, VSeq) and a.kind == "str":
